@@ -138,11 +138,15 @@ def predict (c : Case) : Pred :=
         ({ returns := [renderOpt r.err], stored := r.stored.getD 0,
            outcome := if call.outcome then (match r.outcome with | some (some n) => s!"r:{n}" | _ => "nil") else "" }, w)
       | "getall" =>
-        let (r, w) := queryGetAll s (if c.dests == "none" then 0 else 1) (c.dests != "invalid") w1
+        let (r, w) := queryGetAll s (if c.dests == "none" then 0 else 1) (c.dests == "valid") w1
         ({ returns := [renderOpt r.err], appended := r.appended }, w)
       | _ =>
         let (it, w) := iterOpen s w1
-        let (_, w, outs) := runCalls c.calls c.cancelAt 0 it w c.calls
+        let (it, w, outs) := runCalls c.calls c.cancelAt 0 it w c.calls
+        -- ending the transaction closes result sets the caller left open (database/sql)
+        let w := match it.rows with
+          | some r => if c.onTx then (r.close w).2.1 else w
+          | none => w
         ({ returns := outs }, w)
   let late := c.onTx && c.txEnd == "after" && c.concurrent == 0
   let (_, w3, fin2) := if late then runFinishers c.finishers tx1 w2 else (tx1, w2, [])
